@@ -375,6 +375,11 @@ Next ==
 
 Spec == Init /\ [][Next]_vars
 
+(* JSON form of a path: [[op, t, u, k, v, [accepted keys], n, situation], ...] *)
+KeySeq(S) == SelectSeq([i \in 1 .. 64 |-> i], LAMBDA i : i \in S)
+CmdJ(c) == <<c[1], c[2], c[3], c[4], c[5], KeySeq(c[6]), c[7], c[8]>>
+PathJson(p) == ToJson([i \in 1 .. Len(p) |-> CmdJ(p[i])])
+
 Bound == MaxOps = 0 \/ nops <= MaxOps
 
 ----------------------------------------------------------------------------
@@ -400,37 +405,43 @@ RefStep ==
     [] e.op = "reserve"   -> e.n \in ResArgs /\ A!AReserve(e.t, e.n)
     [] e.op = "clone"     -> A!AClone(e.t, e.u)
     [] OTHER              -> FALSE
-Refines == A!AInit /\ [][SkipInv("Refines") \/ RefStep]_vars
+Refines == A!AInit /\ [][SkipInv("Refines") \/ RefStep \/ ~PrintT("BAD Refines " \o PathJson(path'))]_vars
 
 ----------------------------------------------------------------------------
 (* invariants *)
 
-NoHang == SkipInv("NoHang") \/ \A t \in Tab : ~tabs[t].hung
+(* a violated invariant prints the calls that lead to the violating state
+   (line "BAD <name> <json>"): the check replays them on the real table *)
+Chk(name, cond) == SkipInv(name) \/ cond \/ ~PrintT("BAD " \o name \o " " \o PathJson(path))
+
+NoHang == Chk("NoHang", \A t \in Tab : ~tabs[t].hung)
 
 (* whenever a probe loop can start there is a FREE slot (and the
    debug_assert of find holds): find / remove_entry probe if len > 0,
    find_or_find_insert_slot probes the table left by reserve(1) *)
 ProbeTerminates ==
-  SkipInv("ProbeTerminates") \/
-  \A t \in Tab : Live(t) =>
-    /\ tabs[t].len > 0 => tabs[t].free # 0 /\ NumSt(tabs[t].data, 0) > 0
-    /\ LET r == Reserve(tabs[t], 1) IN ~r.hung /\ Cap(r) > 0 /\ NumSt(r.data, 0) > 0
+  Chk("ProbeTerminates",
+      \A t \in Tab : Live(t) =>
+        /\ tabs[t].len > 0 => tabs[t].free # 0 /\ NumSt(tabs[t].data, 0) > 0
+        /\ LET r == Reserve(tabs[t], 1) IN ~r.hung /\ Cap(r) > 0 /\ NumSt(r.data, 0) > 0)
 
 (* the counter never claims more FREE slots than there are *)
-FreeSound == SkipInv("FreeSound") \/ \A t \in Tab : tabs[t].free <= NumSt(tabs[t].data, 0)
+FreeSound == Chk("FreeSound", \A t \in Tab : tabs[t].free <= NumSt(tabs[t].data, 0))
 (* at least a quarter of the slots is accounted FREE *)
-LoadBound == SkipInv("LoadBound") \/ \A t \in Tab : tabs[t].free >= 0 /\ RatioD * tabs[t].free >= Cap(tabs[t])
-LenExact  == SkipInv("LenExact") \/ \A t \in Tab : tabs[t].len = NumSt(tabs[t].data, 2)
+LoadBound == Chk("LoadBound", \A t \in Tab : tabs[t].free >= 0 /\ RatioD * tabs[t].free >= Cap(tabs[t]))
+LenExact  == Chk("LenExact", \A t \in Tab : tabs[t].len = NumSt(tabs[t].data, 2))
 KeysUnique ==
-  \A t \in Tab : LET oc == OccSeq(tabs[t].data)
-                 IN  Cardinality({tabs[t].data[oc[j]].k : j \in 1 .. Len(oc)}) = Len(oc)
+  Chk("KeysUnique",
+      \A t \in Tab : LET oc == OccSeq(tabs[t].data)
+                     IN  Cardinality({tabs[t].data[oc[j]].k : j \in 1 .. Len(oc)}) = Len(oc))
 (* every element is reachable from its home slot without crossing a FREE slot *)
 Reachable ==
-  \A t \in Tab : \A i \in 1 .. Cap(tabs[t]) :
-     LET d == tabs[t].data cap == Cap(tabs[t]) IN
-     d[i].st = 2 => \A x \in 0 .. ((i - 1 - (d[i].h % cap)) + cap) % cap : d[(((d[i].h % cap) + x) % cap) + 1].st # 0
+  Chk("Reachable",
+      \A t \in Tab : \A i \in 1 .. Cap(tabs[t]) :
+         LET d == tabs[t].data cap == Cap(tabs[t]) IN
+         d[i].st = 2 => \A x \in 0 .. ((i - 1 - (d[i].h % cap)) + cap) % cap : d[(((d[i].h % cap) + x) % cap) + 1].st # 0)
 StructOK ==
-  \A t \in Tab : Cap(tabs[t]) = 0 \/ (Cap(tabs[t]) \in Pow2s /\ Cap(tabs[t]) >= MinCap)
+  Chk("StructOK", \A t \in Tab : Cap(tabs[t]) = 0 \/ (Cap(tabs[t]) \in Pow2s /\ Cap(tabs[t]) >= MinCap))
 
 ----------------------------------------------------------------------------
 (* export of behaviours (binding T).  Evaluated as an invariant, i.e. once
@@ -438,9 +449,7 @@ StructOK ==
    only arrivals by a call that changed the table are printed (every layout
    is first reached by such a call).  ExportTrans (an action constraint)
    additionally prints a random sample of ALL transitions. *)
-KeySeq(S) == SelectSeq([i \in 1 .. 64 |-> i], LAMBDA i : i \in S)
-CmdJ(c) == <<c[1], c[2], c[3], c[4], c[5], KeySeq(c[6]), c[7], c[8]>>
-PathJson(p) == ToJson([i \in 1 .. Len(p) |-> CmdJ(p[i])])
+ASSUME ("HT_EXPORT" \in DOMAIN IOEnv) => PrintT("HASH " \o ToJson([i \in 1 .. Cardinality(Key) |-> H[i]]))
 ExportState ==
   ("HT_EXPORT" \in DOMAIN IOEnv /\ last.chg) => PrintT("PATH " \o PathJson(path))
 ExportTrans ==
